@@ -29,7 +29,7 @@ ASSUMPTIONS = [
     "used as padding",
 ]
 
-FRAGS = ["lyric", "lyric ", "section", "section ", '"', " ", "  ", "\t", "=", "[", "]", "{", "}", "a",
+FRAGS = G.UNICODE_ODDITIES + ["lyric", "lyric ", "section", "section ", '"', " ", "  ", "\t", "=", "[", "]", "{", "}", "a",
          "Solo 1", "phrase_start", "é", "漢字", "ß", "", "E", "0 = E", "-", "lyric\t", "Section ",
          "LYRIC ", "x\"y", '" ']
 _joined = st.lists(st.sampled_from(FRAGS), min_size=0, max_size=5).map("".join)
@@ -77,6 +77,16 @@ def _sections(draw, ctx):
     for tk, tx in zip(ticks, tlist):
         lines.append({"lp": draw(_pad), "z": draw(st.sampled_from([0, 0, 0, 2])), "tick": tk, "text": tx,
                       "rp": draw(_pad)})
+    # size amplification: one section in eight is LONG (130..1000 lines): the drawn block is repeated
+    # with shifted ticks, so that anything that behaves differently after N lines is reached
+    if draw(st.integers(0, 7)) == 0:
+        reps = draw(st.sampled_from([5, 10, 33, 129])) if n >= 8 else draw(st.sampled_from([33, 129, 257]))
+        reps = min(reps, max(1, 1000 // n))
+        span = max(ticks) + 1
+        block = list(lines)
+        for k in range(1, reps):
+            for ln in block:
+                lines.append(dict(ln, tick=ln["tick"] + k * span))
     return {"res": tmap["res"], "tempo": tmap["tempo"], "lines": lines}
 
 
